@@ -52,6 +52,7 @@ func main() {
 	shim := flag.String("shim", "/verif/shim/vsched", "vsched sources")
 	out := flag.String("out", "", "output directory")
 	noAccess := flag.Bool("noaccess", false, "do not instrument field accesses")
+	shimOnly := flag.Bool("shimonly", false, "write only the virtual vsched package into the overlay (godi's sources stay untouched)")
 	flag.Parse()
 	if *out == "" {
 		fatal("need -out")
@@ -65,9 +66,13 @@ func main() {
 		Dir: *repo,
 		Env: append(os.Environ(), "GOFLAGS=-mod=mod", "GOPROXY=off"),
 	}
-	pkgs, err := packages.Load(cfg, ".", "./internal/graph", "./internal/reflection")
-	if err != nil {
-		fatal("load: " + err.Error())
+	var pkgs []*packages.Package
+	if !*shimOnly {
+		var err error
+		pkgs, err = packages.Load(cfg, ".", "./internal/graph", "./internal/reflection")
+		if err != nil {
+			fatal("load: " + err.Error())
+		}
 	}
 	overlay := map[string]string{}
 	st := &stats{PerPackage: map[string]int{}}
